@@ -691,7 +691,9 @@ pub const SINGLE_STEP: &[(&str, u32)] = &[
     ("is_dir", 2),
     ("is_file", 2),
     ("mode", 1),
-    ("readlink", 1),
+    ("readlink", 4),
+    ("readlink_abs", 2),
+    ("is_symlink", 2),
     ("paths", 3),
     ("dirs", 2),
     ("files", 2),
@@ -757,7 +759,7 @@ fn generate(seed: u64, idx: u64, rng: &mut Rng) -> ConcCase {
         m.after(&op, &out, &pre);
         setup.push(op);
     }
-    let family = rng.weighted(&[62, 14, 14, 10]);
+    let family = rng.weighted(&[54, 14, 14, 10, 8]);
     let mut linz = linz;
     let mut setup = setup;
     let nthreads = if linz { rng.range(2, 3) } else { rng.range(2, 4) };
@@ -795,6 +797,56 @@ fn generate(seed: u64, idx: u64, rng: &mut Rng) -> ConcCase {
                 }
                 threads.push(ops);
             }
+        },
+        4 => {
+            // query vs. replacement: one path changes kind (link, file, directory, nothing) under
+            // threads that ask about it; every answer must be the one some single state gives
+            linz = true;
+            setup = vec![
+                Op::MkdirP { p: "/d".into() },
+                Op::WriteAll { p: "/f".into(), d: Bytes(b"F".to_vec()) },
+                Op::WriteAll { p: "/g".into(), d: Bytes(b"G".to_vec()) },
+            ];
+            setup.push(match rng.below(4) {
+                0 => Op::Symlink { l: "/p".into(), t: "/f".into() },
+                1 => Op::Symlink { l: "/p".into(), t: "/d".into() },
+                2 => Op::WriteAll { p: "/p".into(), d: Bytes(b"P".to_vec()) },
+                _ => Op::MkdirP { p: "/p".into() },
+            });
+            for _ in 0..rng.range(1, 2) {
+                let mut ops = vec![];
+                for _ in 0..rng.range(1, 2) {
+                    ops.push(match rng.below(10) {
+                        0 | 1 | 2 => Op::Readlink { p: "/p".into() },
+                        3 => Op::ReadlinkAbs { p: "/p".into() },
+                        4 => Op::IsSymlink { p: "/p".into() },
+                        5 => Op::ReadAll { p: "/p".into() },
+                        6 => Op::IsDir { p: "/p".into() },
+                        7 => Op::IsFile { p: "/p".into() },
+                        8 => Op::Paths { p: "/".into() },
+                        _ => Op::Exists { p: "/p".into() },
+                    });
+                }
+                threads.push(ops);
+            }
+            let mut ops = vec![];
+            match rng.below(5) {
+                0 => ops.push(Op::MoveP { s: "/g".into(), d: "/p".into() }),
+                1 => {
+                    ops.push(Op::Remove { p: "/p".into() });
+                    ops.push(Op::Mkfile { p: "/p".into() });
+                },
+                2 => {
+                    ops.push(Op::Remove { p: "/p".into() });
+                    ops.push(Op::Symlink { l: "/p".into(), t: "/g".into() });
+                },
+                3 => {
+                    ops.push(Op::RemoveAll { p: "/p".into() });
+                    ops.push(Op::MkdirP { p: "/p".into() });
+                },
+                _ => ops.push(Op::Copy { s: "/g".into(), d: "/p".into() }),
+            }
+            threads.push(ops);
         },
         3 => {
             // cwd race: relative spellings on some threads while another moves the working directory.
